@@ -17,6 +17,7 @@ the v1 code on every protocol version (they call `Self::try_deposit_*_or_refund`
 -/
 import RadixModel.Model.AccountDeposit
 import RadixModel.Lemmas.AccountDeposit
+import RadixModel.Generated.C39
 
 namespace Radix.Account
 
@@ -29,6 +30,9 @@ def Authorized (s : Acct) (badge : Option Nat) (proven : Bool) : Prop := Listed 
 /-- every bucket's resource is allowed. -/
 def AllAllowed (s : Acct) (bs : List Bucket) : Prop := ∀ b ∈ bs, isDepositAllowed s b.res = true
 
+instance (s : Acct) (bs : List Bucket) : Decidable (AllAllowed s bs) :=
+  inferInstanceAs (Decidable (∀ b ∈ bs, isDepositAllowed s b.res = true))
+
 instance (s : Acct) (badge : Option Nat) : Decidable (Listed s badge) := by
   unfold Listed
   cases badge with
@@ -37,6 +41,12 @@ instance (s : Acct) (badge : Option Nat) : Decidable (Listed s badge) := by
     cases h : s.dep g with
     | true => exact isTrue ⟨g, rfl, h⟩
     | false => exact isFalse (by simp [h])
+
+/-- Example state for the non-vacuity `example`s: rule AllowExisting, resource 1 explicitly disallowed, resource 2
+held (vault with 5), badge 7 on the depositor list. -/
+def exS : Acct :=
+  ⟨.allowExisting, fun r => if r = 1 then some .disallowed else none, fun g => g == 7,
+   fun r => if r = 2 then some 5 else none⟩
 
 /-! ## The decision `is_deposit_allowed` -/
 
@@ -63,6 +73,9 @@ theorem refused_iff (s : Acct) (r : Nat) :
   | none =>
     cases hr : s.rule <;> simp
 
+example : isDepositAllowed exS 0 = true ∧ isDepositAllowed exS 1 = false ∧
+    isDepositAllowed exS 2 = true ∧ isDepositAllowed exS 3 = false := by decide
+
 /-! ## Single guarded deposit -/
 
 /-- `try_deposit_or_refund` (current code): the three exhaustive input classes and the exact result in each. -/
@@ -77,6 +90,12 @@ theorem single_spec (s : Acct) (b : Bucket) (badge : Option Nat) (proven : Bool)
   cases ha : isDepositAllowed s b.res <;> cases badge with
   | none => simp
   | some g => cases hd : s.dep g <;> cases proven <;> simp [hd]
+
+-- the three classes of `single_spec` are inhabited (refused resource 3; badge 7 listed, badge 8 not)
+example : isDepositAllowed exS 3 = false ∧ Authorized exS (some 7) true := ⟨by decide, ⟨7, rfl, rfl⟩, rfl⟩
+example : isDepositAllowed exS 3 = false ∧ Listed exS (some 7) ∧ false = false := ⟨by decide, ⟨7, rfl, rfl⟩, rfl⟩
+example : isDepositAllowed exS 3 = false ∧ ¬ Listed exS (some 8) := ⟨by decide, by decide⟩
+example : isDepositAllowed exS 3 = false ∧ ¬ Listed exS none := ⟨by decide, by decide⟩
 
 /-- deposited ⇔ allowed ∨ (badge named ∧ listed ∧ proven). -/
 theorem single_deposited_iff (s : Acct) (b : Bucket) (badge : Option Nat) (proven : Bool) :
@@ -148,6 +167,14 @@ theorem batch_spec (s : Acct) (bs : List Bucket) (badge : Option Nat) (proven : 
     cases badge with
     | none => simp [hall]
     | some g => cases hd : s.dep g <;> cases proven <;> simp [hd, hall]
+
+-- the classes of `batch_spec` are inhabited by a partially offending batch with a duplicate
+example : AllAllowed exS [⟨2, 1⟩, ⟨0, 4⟩, ⟨2, 0⟩] := by decide
+example : ¬ AllAllowed exS [⟨2, 1⟩, ⟨3, 1⟩, ⟨2, 2⟩] ∧ Authorized exS (some 7) true := ⟨by decide, ⟨7, rfl, rfl⟩, rfl⟩
+example : ¬ AllAllowed exS [⟨2, 1⟩, ⟨3, 1⟩, ⟨2, 2⟩] ∧ Listed exS (some 7) ∧ false = false :=
+  ⟨by decide, ⟨7, rfl, rfl⟩, rfl⟩
+example : ¬ AllAllowed exS [⟨2, 1⟩, ⟨3, 1⟩, ⟨2, 2⟩] ∧ ¬ Listed exS (some 8) := ⟨by decide, by decide⟩
+example : offending exS [⟨2, 1⟩, ⟨3, 1⟩, ⟨1, 2⟩] = [⟨3, 1⟩, ⟨1, 2⟩] := by decide
 
 /-- deposited-all ⇔ (all buckets allowed) ∨ (badge named ∧ listed ∧ proven). -/
 theorem batch_deposited_iff (s : Acct) (bs : List Bucket) (badge : Option Nat) (proven : Bool) :
@@ -257,6 +284,13 @@ theorem frame_batch (ver : Ver) (s s' : Acct) (bs : List Bucket) (badge : Option
   · subst h1; subst h2
     exact ⟨rfl, rfl, rfl, fun _ _ => rfl, fun rb hrb => ⟨rfl, (Option.some.inj hrb).symm⟩⟩
 
+-- the hypothesis of `frame_batch` is satisfiable in both shapes (deposit / refund)
+example : ∃ s' ev, tryDepositBatchOrRefund .bottlenose exS [⟨2, 1⟩, ⟨2, 2⟩] none false = .ok (s', ev, none) :=
+  ⟨_, _, (batch_spec exS _ none false).1 (Or.inl (by decide))⟩
+example : ∃ s' ev, tryDepositBatchOrRefund .bottlenose exS [⟨2, 1⟩, ⟨3, 2⟩] none false
+    = .ok (s', ev, some [⟨2, 1⟩, ⟨3, 2⟩]) :=
+  ⟨_, _, (batch_spec exS _ none false).2.2 ⟨by decide, by decide⟩⟩
+
 theorem frame_single (ver : Ver) (s s' : Acct) (b : Bucket) (badge : Option Nat) (proven : Bool)
     (ev : List Ev) (ret : Option Bucket)
     (h : tryDepositOrRefund ver s b badge proven = .ok (s', ev, ret)) :
@@ -307,6 +341,145 @@ theorem frame_abort_single (s s' : Acct) (b : Bucket) (badge : Option Nat) (prov
       rw [← h.1]
       exact ⟨this.1, this.2.1, this.2.2.1, this.2.2.2.1⟩
 
+/-! ## All four guarded methods at once: deposited everything, or nothing -/
+
+/-- the arguments of a guarded deposit call (`none` for the owner methods). -/
+def guardedArgs : Op → Option (List Bucket × Option Nat × Bool)
+  | .tryRefund b g p => some ([b], g, p)
+  | .tryBatchRefund bs g p => some (bs, g, p)
+  | .tryAbort b g p => some ([b], g, p)
+  | .tryBatchAbort bs g p => some (bs, g, p)
+  | _ => none
+
+private theorem stOf_batch_dep (ver : Ver) (s : Acct) (bs : List Bucket) (badge : Option Nat) (proven : Bool)
+    (h : AllAllowed s bs ∨ Authorized s badge proven) :
+    stOf s (tryDepositBatchOrRefund ver s bs badge proven) = putAll s bs := by
+  by_cases hall : ∀ b ∈ bs, isDepositAllowed s b.res = true
+  · rw [batch_all ver s bs badge proven hall]; rfl
+  · rw [batch_not_all ver s bs badge proven hall]
+    rcases h with h | ⟨⟨g, hg, hd⟩, hp⟩
+    · exact absurd h hall
+    · subst hg; subst hp
+      simp [batchRefused, hd, stOf]
+
+private theorem stOf_batch_no (ver : Ver) (s : Acct) (bs : List Bucket) (badge : Option Nat) (proven : Bool)
+    (h : ¬ (AllAllowed s bs ∨ Authorized s badge proven)) :
+    stOf s (tryDepositBatchOrRefund ver s bs badge proven) = s := by
+  have hall : ¬ ∀ b ∈ bs, isDepositAllowed s b.res = true := fun hx => h (Or.inl hx)
+  rw [batch_not_all ver s bs badge proven hall]
+  unfold batchRefused
+  cases badge with
+  | none => rfl
+  | some g =>
+    cases hd : s.dep g with
+    | false => cases ver <;> simp [stOf, hd]
+    | true =>
+      cases proven with
+      | false => simp [stOf, hd]
+      | true => exact absurd (Or.inr ⟨⟨g, rfl, hd⟩, rfl⟩) h
+
+
+private theorem stOf_single (ver : Ver) (s : Acct) (b : Bucket) (badge : Option Nat) (proven : Bool) :
+    stOf s (tryDepositOrRefund ver s b badge proven) = stOf s (tryDepositBatchOrRefund ver s [b] badge proven) := by
+  rw [single_is_batch_singleton]
+  cases tryDepositOrRefund ver s b badge proven with
+  | error e => rfl
+  | ok v => obtain ⟨s1, ev, r⟩ := v; rfl
+
+private theorem stOf_batch_abort (s : Acct) (bs : List Bucket) (badge : Option Nat) (proven : Bool) :
+    stOf s (tryDepositBatchOrAbort s bs badge proven) = stOf s (tryDepositBatchOrRefund .v1 s bs badge proven) := by
+  unfold tryDepositBatchOrAbort
+  cases hr : tryDepositBatchOrRefund .v1 s bs badge proven with
+  | error e => rfl
+  | ok v =>
+    obtain ⟨s1, ev, ret⟩ := v
+    cases ret with
+    | none => rfl
+    | some x =>
+      rcases batch_ok_cases .v1 s s1 bs badge proven ev (some x) hr with ⟨_, _, c⟩ | ⟨a, _, _⟩
+      · cases c
+      · simp [stOf, a]
+
+private theorem stOf_abort (s : Acct) (b : Bucket) (badge : Option Nat) (proven : Bool) :
+    stOf s (tryDepositOrAbort s b badge proven) = stOf s (tryDepositBatchOrRefund .v1 s [b] badge proven) := by
+  rw [← stOf_single]
+  unfold tryDepositOrAbort
+  cases hr : tryDepositOrRefund .v1 s b badge proven with
+  | error e => rfl
+  | ok v =>
+    obtain ⟨s1, ev, ret⟩ := v
+    cases ret with
+    | none => rfl
+    | some x =>
+      have := frame_single .v1 s s1 b badge proven ev (some x) hr
+      simp [stOf, (this.2.2.2.2 x rfl).1]
+
+/-- THE PROPERTY, state form, for all four guarded methods and both code versions: the account state after the
+transaction is `putAll s bs` (every bucket deposited) when all buckets are allowed or the named badge is listed and
+proven, and is the unchanged `s` in every other case (refund or failed call). -/
+theorem guarded_step_spec (ver : Ver) (s : Acct) (op : Op) (bs : List Bucket) (badge : Option Nat) (proven : Bool)
+    (hop : guardedArgs op = some (bs, badge, proven)) :
+    ((AllAllowed s bs ∨ Authorized s badge proven) → step ver s op = putAll s bs) ∧
+    (¬ (AllAllowed s bs ∨ Authorized s badge proven) → step ver s op = s) := by
+  cases op <;> simp only [guardedArgs, Option.some.injEq, Prod.mk.injEq, reduceCtorEq] at hop
+  case tryRefund b g p =>
+    obtain ⟨rfl, rfl, rfl⟩ := hop
+    simp only [step, stOf_single]
+    exact ⟨stOf_batch_dep ver s _ _ _, stOf_batch_no ver s _ _ _⟩
+  case tryBatchRefund bs' g p =>
+    obtain ⟨rfl, rfl, rfl⟩ := hop
+    exact ⟨stOf_batch_dep ver s _ _ _, stOf_batch_no ver s _ _ _⟩
+  case tryAbort b g p =>
+    obtain ⟨rfl, rfl, rfl⟩ := hop
+    simp only [step, stOf_abort]
+    exact ⟨stOf_batch_dep .v1 s _ _ _, stOf_batch_no .v1 s _ _ _⟩
+  case tryBatchAbort bs' g p =>
+    obtain ⟨rfl, rfl, rfl⟩ := hop
+    simp only [step, stOf_batch_abort]
+    exact ⟨stOf_batch_dep .v1 s _ _ _, stOf_batch_no .v1 s _ _ _⟩
+
+example : guardedArgs (.tryBatchAbort [⟨2, 1⟩] (some 7) false) = some ([⟨2, 1⟩], some 7, false) := rfl
+
+/-- Soundness corollary: a caller without owner authority who changes ANY vault of the account must have passed the
+deposit rules for every bucket or have named and proven a listed badge. -/
+theorem guarded_change_requires_permission (ver : Ver) (s : Acct) (op : Op) (bs : List Bucket) (badge : Option Nat)
+    (proven : Bool) (hop : guardedArgs op = some (bs, badge, proven)) (r : Nat)
+    (hch : (step ver s op).vault r ≠ s.vault r) :
+    AllAllowed s bs ∨ Authorized s badge proven := by
+  by_cases h : AllAllowed s bs ∨ Authorized s badge proven
+  · exact h
+  · rw [(guarded_step_spec ver s op bs badge proven hop).2 h] at hch
+    exact absurd rfl hch
+
+-- a vault really changes in a permitted call (hypothesis `hch`)
+example : (step .bottlenose exS (.tryRefund ⟨2, 1⟩ none false)).vault 2 ≠ exS.vault 2 := by decide
+
+/-! ## Declarative facts regenerated from the current tree (`Generated/C39.lean`)
+
+Method codes (index in `Generated.C39.methodNames`): 0..3 = the four guarded deposits `try_deposit[_batch]_or_{refund,abort}`,
+4 `deposit`, 5 `deposit_batch`, 6..10 the deposit-rule configuration methods, 11/12 the withdrawals, 21 `securify`,
+22..24 the read-only getters. Accessibility: 0 = Public, 1 = owner role only, 2 = another role. -/
+
+open Radix.Generated.C39 in
+/-- Which native code the exports run on a ledger with all protocol updates (the `Ver` of the model): the two
+`..._or_refund` exports run `AccountCode2` (bottlenose extension), the two `..._or_abort` exports and the owner
+deposits run `AccountCode1`. -/
+theorem exports_code_ids :
+    exportCode.lookup 0 = some accountCode2 ∧ exportCode.lookup 1 = some accountCode2 ∧
+    exportCode.lookup 2 = some accountCode1 ∧ exportCode.lookup 3 = some accountCode1 ∧
+    exportCode.lookup 4 = some accountCode1 ∧ exportCode.lookup 5 = some accountCode1 ∧
+    accountCode1 ≠ accountCode2 := by decide
+
+open Radix.Generated.C39 in
+/-- The guarded deposits are the ONLY state-changing Public methods of the account: every Public method is one of
+the four guarded deposits or a read-only getter; in particular the unguarded `deposit` / `deposit_batch`, the
+configuration of the deposit rules and the withdrawals need the owner role — the deposit rules cannot be bypassed
+or edited by a stranger. -/
+theorem public_methods_are_guarded_or_getters :
+    (∀ m ∈ methodAuth, m.2 = 0 → m.1 ∈ [0, 1, 2, 3, 22, 23, 24]) ∧
+    (∀ c ∈ [0, 1, 2, 3], methodAuth.lookup c = some 0) ∧
+    (∀ c ∈ [4, 5, 6, 7, 8, 9, 10, 11, 12], methodAuth.lookup c = some 1) := by decide
+
 /-! ## The two code versions -/
 
 /-- The pre-bottlenose `..._or_refund` code agrees with the current one on every input except one class: a refused
@@ -327,6 +500,8 @@ theorem v1_differs_only_on_unlisted_badge (s : Acct) (bs : List Bucket) (badge :
     cases badge with
     | none => simp
     | some g => cases hd : s.dep g <;> cases proven <;> simp [hd, hall]
+
+example : ¬ AllAllowed exS [⟨3, 1⟩] ∧ (some 8 : Option Nat) = some 8 ∧ exS.dep 8 = false := ⟨by decide, rfl, rfl⟩
 
 /-! ## Histories: the `AllowExisting` rule -/
 
@@ -431,5 +606,101 @@ theorem allowExisting_stable (ver : Ver) (s : Acct) (ops : List Op) (r : Nat)
   have := vault_exists_run ver s ops r hv
   unfold isDepositAllowed
   simp [hrule, hpref, this]
+
+-- hypotheses of `allowExisting_stable` / `allowExisting_iff_history` on a concrete history: an empty bucket
+-- deposited by the owner is enough to make resource 3 "existing", and withdrawing everything does not undo it
+example : (run .bottlenose init [.setRule .allowExisting, .ownerDeposit [⟨3, 0⟩], .withdraw 3 0]).rule = .allowExisting ∧
+    (run .bottlenose init [.setRule .allowExisting, .ownerDeposit [⟨3, 0⟩], .withdraw 3 0]).pref 3 = none ∧
+    isDepositAllowed (run .bottlenose init [.setRule .allowExisting, .ownerDeposit [⟨3, 0⟩], .withdraw 3 0]) 3 = true :=
+  ⟨rfl, rfl, by decide⟩
+
+/-- executable form of "all buckets allowed, or a listed badge named and proven". -/
+def permitted (s : Acct) (bs : List Bucket) (badge : Option Nat) (proven : Bool) : Bool :=
+  bs.all (fun b => isDepositAllowed s b.res) ||
+  (match badge with
+   | some g => s.dep g && proven
+   | none => false)
+
+theorem permitted_iff (s : Acct) (bs : List Bucket) (badge : Option Nat) (proven : Bool) :
+    permitted s bs badge proven = true ↔ (AllAllowed s bs ∨ Authorized s badge proven) := by
+  unfold permitted AllAllowed Authorized Listed
+  cases badge with
+  | none => simp
+  | some g => simp
+
+/-- resources deposited by a call at state `s`, defined from the SPECIFICATION (not from the code's result):
+an owner deposit deposits its buckets, a guarded deposit deposits its buckets iff it is permitted. -/
+def depositedRes (s : Acct) (op : Op) : List Nat :=
+  match op with
+  | .ownerDeposit bs => bs.map (fun b => b.res)
+  | op =>
+    match guardedArgs op with
+    | some (bs, g, p) => if permitted s bs g p then bs.map (fun b => b.res) else []
+    | none => []
+
+/-- all resources deposited during a history. -/
+def depositedTrace (ver : Ver) (s : Acct) : List Op → List Nat
+  | [] => []
+  | op :: ops => depositedRes s op ++ depositedTrace ver (step ver s op) ops
+
+private theorem guarded_vault_isSome (ver : Ver) (s : Acct) (op : Op) (bs : List Bucket) (g : Option Nat) (p : Bool)
+    (hop : guardedArgs op = some (bs, g, p)) (r : Nat) :
+    ((step ver s op).vault r).isSome =
+      ((s.vault r).isSome || decide (r ∈ (if permitted s bs g p then bs.map (fun b => b.res) else []))) := by
+  have hs := guarded_step_spec ver s op bs g p hop
+  by_cases hp : permitted s bs g p = true
+  · rw [hs.1 ((permitted_iff s bs g p).1 hp)]
+    simp only [hp, if_true]
+    exact putAll_vault_isSome s bs r
+  · rw [hs.2 (fun h => hp ((permitted_iff s bs g p).2 h))]
+    simp [hp]
+
+/-- the vault of `r` exists after a call iff it existed before or the call deposited a bucket of `r`. -/
+theorem vault_exists_step_iff (ver : Ver) (s : Acct) (op : Op) (r : Nat) :
+    ((step ver s op).vault r).isSome = ((s.vault r).isSome || decide (r ∈ depositedRes s op)) := by
+  cases op with
+  | setRule x => simp [step, depositedRes, guardedArgs]
+  | setPref r' p => simp [step, depositedRes, guardedArgs]
+  | removePref r' => simp [step, depositedRes, guardedArgs]
+  | addDep g => simp [step, depositedRes, guardedArgs]
+  | removeDep g => simp [step, depositedRes, guardedArgs]
+  | ownerDeposit bs => simp only [step, depositedRes]; exact putAll_vault_isSome s bs r
+  | withdraw r' a =>
+    simp only [step, depositedRes, guardedArgs, withdraw, List.not_mem_nil, decide_false, Bool.or_false]
+    cases hv : s.vault r' with
+    | none => rfl
+    | some x =>
+      by_cases hle : a ≤ x
+      · simp only [hle, if_true]
+        by_cases hrr : r = r'
+        · simp [hrr, hv]
+        · simp [hrr]
+      · simp only [hle, if_false]
+  | tryRefund b g p => exact guarded_vault_isSome ver s _ [b] g p rfl r
+  | tryBatchRefund bs g p => exact guarded_vault_isSome ver s _ bs g p rfl r
+  | tryAbort b g p => exact guarded_vault_isSome ver s _ [b] g p rfl r
+  | tryBatchAbort bs g p => exact guarded_vault_isSome ver s _ bs g p rfl r
+
+/-- Resource history, every call sequence: the account "already holds" (has a vault of) `r` after a history iff it
+did before or some call of the history deposited a bucket of `r` — so under `AllowExisting` a non-XRD resource
+without an explicit preference is accepted exactly when an earlier (owner or permitted guarded) deposit of it
+happened, however much was withdrawn since. -/
+theorem vault_exists_iff_history (ver : Ver) (s : Acct) (ops : List Op) (r : Nat) :
+    ((run ver s ops).vault r).isSome = ((s.vault r).isSome || decide (r ∈ depositedTrace ver s ops)) := by
+  induction ops generalizing s with
+  | nil => simp [run, depositedTrace]
+  | cons op ops ih =>
+    simp only [run, depositedTrace, ih, vault_exists_step_iff, List.mem_append, Bool.decide_or, Bool.or_assoc]
+
+/-- `AllowExisting` over histories from a fresh account. -/
+theorem allowExisting_iff_history (ver : Ver) (ops : List Op) (r : Nat)
+    (hrule : (run ver init ops).rule = .allowExisting) (hpref : (run ver init ops).pref r = none) :
+    isDepositAllowed (run ver init ops) r = true ↔ (r = XRD ∨ r ∈ depositedTrace ver init ops) := by
+  have h := vault_exists_iff_history ver init ops r
+  have h0 : (init.vault r).isSome = false := rfl
+  rw [h0, Bool.false_or] at h
+  unfold isDepositAllowed
+  simp only [hpref, hrule, h]
+  simp
 
 end Radix.Account
